@@ -10,3 +10,12 @@ claim('C18', 'proof',
       '"contains the reference isotope" is decided as window membership anchored at mdl_isotope (DESIGN.md C18); '
       'physical correctness of masses/abundances beyond sanity windows is not decided',
       'DESIGN.md 4/C18')
+claim('C12', 'other',
+      'literal-table proof (24+8 permutation entries vs parity) + decision-ladder normalisation and sibling '
+      'comparison of the sign-translation functions (ast)',
+      'decides the structural clauses: the two permutation tables equal parity / side-exchange (finite, exhaustive), '
+      'the translation ladders produce exactly the table keys with matching indices, hydrogen fallbacks only on '
+      'optional positions, sign flips exactly when the table says so; geometric sign functions, stereocentre '
+      'detection and agreement with another toolkit are NOT decided',
+      'trusts: ast parser; convention "True = flip"; undecided clauses listed in evidence.coverage.undecided_clauses',
+      'DESIGN.md 4/C12')
